@@ -221,6 +221,14 @@ func (x *Sock) Recv() (string, error) {
 		x.lastHdr = append([]byte{}, m.Header...)
 	}
 	b := string(m.Body)
+	// the application owns what it received: it may overwrite it in place before releasing it,
+	// and nobody else (another context, another peer's copy, a later message) may notice
+	for i := range m.Body {
+		m.Body[i] ^= 0xa5
+	}
+	for i := range m.Header {
+		m.Header[i] ^= 0xa5
+	}
 	m.Free()
 	return b, nil
 }
